@@ -252,11 +252,12 @@ class ValueTextMixin:
                         key = (label, tuple(p for p in pieces if p[0] != 'gap'))
                         o = obs[2] if obs[0] == 'ok' else None
                         if key in by_comps and by_comps[key][1] != o:
+                            pa, pb = self.vt_shrink_pair(by_comps[key][2], pieces)
+                            ta, tb = (''.join(t for _, t in x) for x in (pa, pb))
                             ctx.violate('Property.value does not depend on comment / white-space placement between '
-                                        'components', {'value_a': by_comps[key][0], 'value_b': text,
-                                                       'preferences': label},
-                                        {'a': by_comps[key][1], 'b': o})
-                        by_comps.setdefault(key, (text, o))
+                                        'components', {'value_a': ta, 'value_b': tb, 'preferences': label},
+                                        {'a': self.vt_value(ta), 'b': self.vt_value(tb)})
+                        by_comps.setdefault(key, (text, o, pieces))
                         # S tokens in a row: the same text through a parser that drops comments in the tokenizer
                         if label == 'default' and '/*' in text and ';' not in text and '}' not in text \
                                 and '{' not in text and not any(k_ in ('invalid', 'other') or (k_ == 'term' and '/*' in t)
@@ -277,6 +278,100 @@ class ValueTextMixin:
         for l, e, o, m in zip(lines, exps, out, metas):
             if o is not None and o != e:
                 ctx.disagree('vt', {'request': l, 'preferences': m[0], 'value': m[1]}, e, o)
+
+    def vt_value(self, text, via='PropertyValue'):
+        obs = self.vt_observe(text, via)
+        return obs[2] if obs[0] == 'ok' else None
+
+    @staticmethod
+    def vt_groups(pieces):
+        """[(gap text before, component)] + trailing gap text"""
+        groups, gap = [], ''
+        for k, t in pieces:
+            if k == 'gap':
+                gap += t
+            else:
+                groups.append((gap, (k, t)))
+                gap = ''
+        return groups, gap
+
+    def vt_shrink_pair(self, pa, pb):
+        """two fillings of the same components with different value texts: drop components (from both) and gap
+        material while the two texts still differ"""
+        ga, ea = self.vt_groups(pa)
+        gb, eb = self.vt_groups(pb)
+
+        def build(groups, end):
+            out = []
+            for g, c in groups:
+                if g:
+                    out.append(('gap', g))
+                out.append(c)
+            if end:
+                out.append(('gap', end))
+            return out
+
+        def differ(ga, ea, gb, eb):
+            ta = ''.join(t for _, t in build(ga, ea))
+            tb = ''.join(t for _, t in build(gb, eb))
+            try:
+                # the two texts must still have the same components according to the real tokenizer
+                ca = [x for x in self.vt_tokens(ta) if x[0] not in ('S', 'COMMENT')]
+                cb = [x for x in self.vt_tokens(tb) if x[0] not in ('S', 'COMMENT')]
+                return ca == cb and self.vt_value(ta) != self.vt_value(tb)
+            except Exception:
+                return False
+
+        if len(ga) != len(gb) or not differ(ga, ea, gb, eb):
+            return pa, pb
+        changed = True
+        while changed:
+            changed = False
+            for i in range(len(ga)):
+                na, nb = ga[:i] + ga[i + 1:], gb[:i] + gb[i + 1:]
+                if na and differ(na, ea, nb, eb):
+                    ga, gb, changed = na, nb, True
+                    break
+            for side in (0, 1):
+                for end in ('', None):
+                    if end is None:
+                        continue
+                    if side == 0 and ea and differ(ga, '', gb, eb):
+                        ea, changed = '', True
+                    if side == 1 and eb and differ(ga, ea, gb, ''):
+                        eb, changed = '', True
+            for i in range(len(ga)):
+                for simple in ('', ' '):
+                    if ga[i][0] not in ('', ' ') and differ(ga[:i] + [(simple, ga[i][1])] + ga[i + 1:], ea, gb, eb):
+                        ga, changed = ga[:i] + [(simple, ga[i][1])] + ga[i + 1:], True
+                    if gb[i][0] not in ('', ' ') and differ(ga, ea, gb[:i] + [(simple, gb[i][1])] + gb[i + 1:], eb):
+                        gb, changed = gb[:i] + [(simple, gb[i][1])] + gb[i + 1:], True
+        return build(ga, ea), build(gb, eb)
+
+    def vt_replay(self, ctx, clause, w):
+        """replay of a violation reported by `corr_value_text`; True if the witness is one of this stream"""
+        if 'value_a' in w and 'value_b' in w:
+            setting = dict(PREFS).get(w.get('preferences', 'default'), {})
+            with self.prefs(setting):
+                a, b = self.vt_value(w['value_a']), self.vt_value(w['value_b'])
+            if a != b:
+                ctx.violate(clause, w, {'a': a, 'b': b})
+            return True
+        if 'value' in w and w.get('parser') == 'parseComments=False':
+            a, b = self.vt_value(w['value']), self.vt_value(w['value'], via='parseComments=False')
+            if a != b:
+                ctx.violate(clause, w, {'with_comments': a, 'comments_dropped_by_tokenizer': b})
+            return True
+        if 'value' in w and 'preferences' in w and len(w) == 2:
+            setting = dict(PREFS).get(w['preferences'], {})
+            with self.prefs(setting):
+                a = self.vt_value(w['value'])
+                with time_limit(10):
+                    b = self.cu.css.Property('top', w['value']).value
+            if a is not None and a != b:
+                ctx.violate(clause, w, {'Property.value': b, 'PropertyValue.value': a})
+            return True
+        return False
 
     def vt_fixed(self, text, cache):
         """a fixed text cut into pieces with the real tokenizer (simple tokens only)"""
